@@ -30,6 +30,8 @@ type TransCfg struct {
 	RawMaxConns int      `json:"RawMaxConns"` // value given to the Transport (may be <= 0: normalisation)
 	RawMaxIdle  int      `json:"RawMaxIdle"`
 	UseRaw      bool     `json:"UseRaw"`
+	IOErr       bool     `json:"IOErr"` // dropped connections end with a read error other than EOF at the client
+	Forms       []string `json:"Forms"` // call forms the callers rotate through: call (default) / go / rt / stream
 }
 
 type TStep struct {
@@ -90,6 +92,26 @@ type TReply struct {
 	Addr string
 }
 
+// TStream is the stream handler's view of a stream.
+type TStream struct{ s rpc.Stream }
+
+func (h *TStream) Connect(s rpc.Stream) error { h.s = s; return nil }
+
+// Chat: the first message names the call; the handler then waits at the gate like Do, answers one message and returns.
+func (s *TSvc) Chat(st *TStream) error {
+	var a TArgs
+	if err := st.s.ReadMessage(nil, &a); err != nil {
+		return err
+	}
+	s.mu.Lock()
+	s.exec[a.ID]++
+	s.mu.Unlock()
+	if s.gate != nil {
+		s.gate.wait(key(a.ID))
+	}
+	return st.s.WriteMessage(&TReply{ID: a.ID, Addr: s.addr})
+}
+
 func (s *TSvc) Do(a *TArgs, r *TReply) error {
 	s.mu.Lock()
 	s.exec[a.ID]++
@@ -118,24 +140,25 @@ type tcaller struct {
 
 type TransRun struct {
 	*Run
-	cfg      TransCfg
-	t        *rpc.Transport
-	mu2      sync.Mutex
-	servers  map[string]*tsrv
-	connID   map[*rpc.Conn]int
-	connAddr map[*rpc.Conn]string
-	connWire map[*rpc.Conn]*Wire
-	nextID   int
-	gotGate  *gate
-	tickGate *gate
-	callers  map[int]*tcaller
-	gidK     sync.Map // goroutine id -> caller k
-	notes    []string
-	waitMs   int
-	t0       time.Time
-	opened   int64
-	gated    bool
-	brokenW  []*Wire
+	cfg       TransCfg
+	t         *rpc.Transport
+	mu2       sync.Mutex
+	servers   map[string]*tsrv
+	connID    map[*rpc.Conn]int
+	connAddr  map[*rpc.Conn]string
+	connWire  map[*rpc.Conn]*Wire
+	nextID    int
+	gotGate   *gate
+	tickGate  *gate
+	callers   map[int]*tcaller
+	gidK      sync.Map // goroutine id -> caller k
+	notes     []string
+	waitMs    int
+	stopWatch chan struct{} // closed at the end of the run: watchers of Done channels stop
+	t0        time.Time
+	opened    int64
+	gated     bool
+	brokenW   []*Wire
 }
 
 var burstID int64
@@ -149,7 +172,7 @@ func (jsonCodec) Unmarshal(data []byte, v interface{}) error        { return jso
 
 func newTransRun(name string, cfg TransCfg, gated bool) *TransRun {
 	r := &TransRun{Run: newRun(name), cfg: cfg, servers: map[string]*tsrv{}, connID: map[*rpc.Conn]int{}, connAddr: map[*rpc.Conn]string{},
-		connWire: map[*rpc.Conn]*Wire{}, callers: map[int]*tcaller{}, waitMs: 400, t0: time.Now(), gated: gated}
+		connWire: map[*rpc.Conn]*Wire{}, callers: map[int]*tcaller{}, waitMs: 400, t0: time.Now(), gated: gated, stopWatch: make(chan struct{})}
 	r.Run.onHook = r.bind
 	if cfg.UnitMs <= 0 {
 		cfg.UnitMs = 6
@@ -344,9 +367,46 @@ func (r *TransRun) startCall(k int, addr string, withCtx bool) {
 		r.gidK.Store(g, k)
 		close(ready)
 		var err error
-		if c.dctx != nil {
+		form := "call"
+		if len(r.cfg.Forms) > 0 {
+			form = r.cfg.Forms[(c.n-1)%len(r.cfg.Forms)]
+		}
+		streamEnded := false
+		switch {
+		case c.dctx != nil:
 			err = r.t.CallWithContext(c.dctx, addr, "T.Do", &TArgs{ID: id}, &c.reply)
-		} else {
+		case form == "go" || form == "rt":
+			// asynchronous forms: the call must be signalled exactly once, whatever happens to the connection
+			done := make(chan *rpc.Call, 8)
+			var call *rpc.Call
+			if form == "go" {
+				call = r.t.Go(addr, "T.Do", &TArgs{ID: id}, &c.reply, done)
+			} else {
+				call = &rpc.Call{ServiceMethod: "T.Do", Args: &TArgs{ID: id}, Reply: &c.reply, Done: done}
+				r.t.RoundTrip(addr, call)
+			}
+			<-done
+			err = call.Error
+			go func() { // any further signal on the same Done channel is a second completion
+				select {
+				case <-done:
+					r.add(&Ev{Ev: "obs.dupsignal", C: k, Seq: -1, Sent: -1, S: id})
+				case <-r.stopWatch:
+				}
+			}()
+		case form == "stream":
+			var st rpc.Stream
+			st, err = r.t.NewStream(addr, "T.Chat")
+			if err == nil {
+				if err = st.WriteMessage(&TArgs{ID: id}); err == nil {
+					err = st.ReadMessage(nil, &c.reply)
+				}
+				if err != nil {
+					streamEnded = true // the stream broke with its connection: not an answer of getConn / of the call forms R3 names
+				}
+				st.Close()
+			}
+		default:
 			err = r.t.Call(addr, "T.Do", &TArgs{ID: id}, &c.reply)
 		}
 		r.gidK.Delete(g)
@@ -363,6 +423,18 @@ func (r *TransRun) startCall(k int, addr string, withCtx bool) {
 			kind = 4
 		default:
 			kind = 3
+		}
+		if streamEnded {
+			kind = 5
+		}
+		if err == errReset {
+			// the connection's own read error, passed through: fine for a call that was in flight when the connection ended,
+			// not for one that was handed the connection afterwards (that one must be refused with ErrShutdown, or the
+			// Transport never learns that the connection is dead)
+			kind = 6
+			if r.startedAfterDrop(k, id) {
+				kind = 7
+			}
 		}
 		right := 1
 		if err == nil && (c.reply.Addr != addr || c.reply.ID != id) {
@@ -384,6 +456,30 @@ func (r *TransRun) startCall(k int, addr string, withCtx bool) {
 			return false
 		}
 	})
+}
+
+// startedAfterDrop: was the connection this call was handed already dropped by the environment when the call started?
+func (r *TransRun) startedAfterDrop(k, id int) bool {
+	r.Run.mu.Lock()
+	defer r.Run.mu.Unlock()
+	callAt, conn := -1, 0
+	for i, e := range r.Run.evs {
+		if e.Ev == "api.call" && e.C == k && e.S == id {
+			callAt = i
+		}
+		if callAt >= 0 && (e.Ev == "t.get" || e.Ev == "t.dial") && e.C == k && e.S != 0 {
+			conn = e.S
+		}
+	}
+	if callAt < 0 || conn == 0 {
+		return false
+	}
+	for i, e := range r.Run.evs {
+		if e.Ev == "env.drop" && e.S == conn && i < callAt {
+			return true
+		}
+	}
+	return false
 }
 
 // countReg: has the current call of caller k been registered (api.reg seen for it)?
@@ -563,7 +659,11 @@ func (r *TransRun) exec(st TStep) {
 			return
 		}
 		r.add(&Ev{Ev: "env.drop", S: st.K, Seq: -1, Sent: -1})
-		w.Cut(0, 0)
+		if r.cfg.IOErr {
+			w.CutErr(errReset)
+		} else {
+			w.Cut(0, 0)
+		}
 		for k, c := range r.callers {
 			if c.running && r.lastConnOf(k) == st.K && r.countReg(k, c.cur) {
 				k := k
@@ -601,6 +701,7 @@ func (r *TransRun) finalize() {
 	r.add(&Ev{Ev: "obs.closing", Seq: -1, Sent: -1})
 	r.t.Close()
 	time.Sleep(3 * time.Millisecond)
+	close(r.stopWatch)
 	// sockets: every connection dialed must be closed after Close (pooled ones) - callers are done
 	live := 0
 	r.mu2.Lock()
@@ -640,7 +741,7 @@ func (r *TransRun) trace() []*Ev {
 	for i, e := range evs {
 		switch e.Ev {
 		case "t.get", "t.idle.deq", "t.dial", "t.dead", "t.tick", "t.tick.end", "t.idle.close", "t.closeidle.active", "t.closeidle.idle", "t.idle.spare", "api.reg",
-			"t.close", "t.close.conn", "t.closed", "api.call", "api.ret", "api.closeidle", "api.closeidle.end", "env.kill", "env.restart", "env.drop", "obs.closing", "obs.end", "obs.dupexec":
+			"t.close", "t.close.conn", "t.closed", "api.call", "api.ret", "api.closeidle", "api.closeidle.end", "env.kill", "env.restart", "env.drop", "obs.dupsignal", "obs.closing", "obs.end", "obs.dupexec":
 			out = append(out, e)
 		case "t.retire":
 			// look ahead: was it enqueued or closed for lack of room?
